@@ -410,11 +410,10 @@ func (p *Process) stopProcess(cancelReadinessFuncs bool) error {
 		return nil
 	}
 	verifYield("stop.afterCheck", p.getName())
-	if p.isEnded.Load() {
+	if !p.setStateUnlessEnded(types.ProcessStateTerminating) {
 		// this instance is over already: the state may belong to a successor
 		return nil
 	}
-	p.setState(types.ProcessStateTerminating)
 	p.stopProbes()
 	if cancelReadinessFuncs {
 		if p.readyProber != nil {
@@ -726,6 +725,19 @@ func (p *Process) setState(state string) {
 	defer p.stateMtx.Unlock()
 	p.procState.Status = state
 	p.onStateChange(state)
+}
+
+// setStateUnlessEnded writes the state unless the instance has ended; the
+// check and the write are atomic with respect to the final state write.
+func (p *Process) setStateUnlessEnded(state string) bool {
+	p.stateMtx.Lock()
+	defer p.stateMtx.Unlock()
+	if p.isEnded.Load() {
+		return false
+	}
+	p.procState.Status = state
+	p.onStateChange(state)
+	return true
 }
 
 func (p *Process) getState() *types.ProcessState {
